@@ -305,9 +305,17 @@ def vm_crosscheck(family, mcases, mouts, sample, tag):
     with open(path, "w") as f:
         f.write("From SLT Require Import Entry.\nOpen Scope N_scope.\n")
         f.write("Definition fam := %s.\n" % coq_term(family)[4:-1])
+        kept = []
         for i in idx:
-            f.write("Eval vm_compute in (val_eqb (model_main fam %s) %s).\n" % (coq_term(mcases[i]), coq_term(mouts[i])))
-    rc, out = sh("timeout 900 coqc -noglob -Q %s SLT %s" % (COQ, path), cwd=d, check=False, timeout=1000)
+            # coqc parses the literal recursively: a case of several hundred thousand characters overflows its stack; take a neighbour instead
+            for j in [i] + list(range(i + 1, min(n, i + 20))):
+                ta, tb = coq_term(mcases[j]), coq_term(mouts[j])
+                if len(ta) + len(tb) < 120000:
+                    f.write("Eval vm_compute in (val_eqb (model_main fam %s) %s).\n" % (ta, tb))
+                    kept.append(j)
+                    break
+        idx = kept
+    rc, out = sh("ulimit -s unlimited 2>/dev/null; timeout 900 coqc -noglob -Q %s SLT %s" % (COQ, path), cwd=d, check=False, timeout=1000)
     for ext in (".v", ".vo", ".vok", ".vos", ".glob"):
         try:
             os.remove(os.path.join(d, name + ext))
